@@ -42,7 +42,14 @@ type sItem struct {
 	N     int      `json:"n,omitempty"` // message/presence/iq stanza id for post-session traffic
 }
 
+func attrEsc(s string) string {
+	var b bytes.Buffer
+	xml.EscapeText(&b, []byte(s))
+	return b.String()
+}
+
 func (it sItem) xml() string {
+	it.ID = attrEsc(it.ID)
 	switch it.T {
 	case "header":
 		return fmt.Sprintf("<?xml version='1.0'?><stream:stream xmlns='jabber:client' xmlns:stream='http://etherx.jabber.org/streams' from='localhost' id='%s' version='1.0'>", it.ID)
@@ -164,10 +171,12 @@ type connScript struct {
 }
 
 type connLog struct {
-	Elems   []cElem `json:"elems"`
-	TLS     string  `json:"tls,omitempty"` // "", "ok", "handshake-error"
-	ClearBy []byte  `json:"-"`             // every byte received outside TLS
-	Ended   string  `json:"ended"`
+	Elems    []cElem `json:"elems"`
+	TLS      string  `json:"tls,omitempty"` // "", "ok", "handshake-error"
+	ClearBy  []byte  `json:"-"`             // every byte received outside TLS
+	RawBy    []byte  `json:"-"`             // after <proceed/>: every byte read from the socket underneath TLS (handshake included)
+	SecureBy []byte  `json:"-"`             // after <proceed/>: every byte of the decrypted stream
+	Ended    string  `json:"ended"`
 }
 
 type scriptedServer struct {
@@ -267,6 +276,39 @@ func (c countingReader) Read(p []byte) (int, error) {
 	if n > 0 {
 		c.mu.Lock()
 		c.log.ClearBy = append(c.log.ClearBy, p[:n]...)
+		c.mu.Unlock()
+	}
+	return n, err
+}
+
+// sinkConn records what the TLS layer reads from the socket; sinkReader what the XML decoder reads from TLS.
+type sinkConn struct {
+	net.Conn
+	sink *[]byte
+	mu   *sync.Mutex
+}
+
+func (c sinkConn) Read(p []byte) (int, error) {
+	n, err := c.Conn.Read(p)
+	if n > 0 {
+		c.mu.Lock()
+		*c.sink = append(*c.sink, p[:n]...)
+		c.mu.Unlock()
+	}
+	return n, err
+}
+
+type sinkReader struct {
+	r    io.Reader
+	sink *[]byte
+	mu   *sync.Mutex
+}
+
+func (c sinkReader) Read(p []byte) (int, error) {
+	n, err := c.r.Read(p)
+	if n > 0 {
+		c.mu.Lock()
+		*c.sink = append(*c.sink, p[:n]...)
 		c.mu.Unlock()
 	}
 	return n, err
@@ -399,7 +441,7 @@ func (s *scriptedServer) serve(conn net.Conn, sc connScript, lg *connLog) {
 			}
 			if it.T == "proceed" {
 				cfg := serverTLSConfig(sc.Cert)
-				tc := tls.Server(conn, cfg)
+				tc := tls.Server(sinkConn{conn, &lg.RawBy, &s.mu}, cfg)
 				tc.SetDeadline(time.Now().Add(5 * time.Second))
 				if err := tc.Handshake(); err != nil {
 					s.mu.Lock()
@@ -414,7 +456,7 @@ func (s *scriptedServer) serve(conn net.Conn, sc connScript, lg *connLog) {
 				s.mu.Unlock()
 				cur = tc
 				secure = true
-				dec = xml.NewDecoder(tc)
+				dec = xml.NewDecoder(sinkReader{tc, &lg.SecureBy, &s.mu})
 			}
 		}
 	}
@@ -464,7 +506,8 @@ func (s *scriptedServer) snapshot() []connLog {
 	defer s.mu.Unlock()
 	out := make([]connLog, len(s.logs))
 	for i, l := range s.logs {
-		out[i] = connLog{Elems: append([]cElem{}, l.Elems...), TLS: l.TLS, Ended: l.Ended, ClearBy: append([]byte{}, l.ClearBy...)}
+		out[i] = connLog{Elems: append([]cElem{}, l.Elems...), TLS: l.TLS, Ended: l.Ended, ClearBy: append([]byte{}, l.ClearBy...),
+			RawBy: append([]byte{}, l.RawBy...), SecureBy: append([]byte{}, l.SecureBy...)}
 	}
 	return out
 }
